@@ -19,6 +19,8 @@
  *
  *   ops   C        create the client session (starts the handshake)
  *         qc<k> qn<k>   client sends Confirmable / Non-confirmable request number k (POST /secretpath)
+ *         bm       client context in COAP_BLOCK_USE_LIBCOAP mode (before C)
+ *         qo<k>    Confirmable FETCH with Observe: 0 (tracked in session->lg_crcv)
  *         ns<k>    set NSTART of the client session
  *         mh<k>    server: coap_context_set_max_handshake_sessions(k)
  *         d x u o  deliver / drop / deliver twice / postpone the oldest pending datagram
@@ -433,6 +435,7 @@ static void run_case(void) {
   vn_register_ep(g_srv, g_ep);
   coap_resource_t *r = coap_resource_init(coap_make_str_const(PATH), 0);
   coap_register_request_handler(r, COAP_REQUEST_POST, on_post);
+  coap_register_request_handler(r, COAP_REQUEST_FETCH, on_post);
   coap_add_resource(g_srv, r);
   coap_register_event_handler(g_srv, on_event_s);
   coap_register_response_handler(g_cli, on_resp);
@@ -468,25 +471,33 @@ static void run_case(void) {
         coap_address_copy(&g_caddr, &g_cs->addr_info.local);
         g_have_caddr = 1;
       }
-    } else if (op[0] == 'q' && (op[1] == 'c' || op[1] == 'n')) {
+    } else if (strcmp(op, "bm") == 0) {
+      /* client: let libcoap do block-wise transfers (requests are then tracked in lg_crcv) */
+      coap_context_set_block_mode(g_cli, COAP_BLOCK_USE_LIBCOAP);
+    } else if (op[0] == 'q' && (op[1] == 'c' || op[1] == 'n' || op[1] == 'o')) {
       int k = atoi(op + 2);
       if (g_cs && k >= 0 && k < MAXREQ) {
-        coap_pdu_t *p = coap_new_pdu(op[1] == 'c' ? COAP_MESSAGE_CON : COAP_MESSAGE_NON,
-                                     COAP_REQUEST_CODE_POST, g_cs);
+        /* qo: Confirmable FETCH with Observe (register) */
+        coap_pdu_t *p = coap_new_pdu(op[1] != 'n' ? COAP_MESSAGE_CON : COAP_MESSAGE_NON,
+                                     op[1] == 'o' ? COAP_REQUEST_CODE_FETCH : COAP_REQUEST_CODE_POST, g_cs);
         uint8_t tok[8];
         size_t tl;
         coap_session_new_token(g_cs, &tl, tok);
         coap_add_token(p, tl, tok);
+        if (op[1] == 'o')
+          coap_add_option(p, COAP_OPTION_OBSERVE, 0, NULL);
         coap_add_option(p, COAP_OPTION_URI_PATH, strlen(PATH), (const uint8_t *)PATH);
+        if (op[1] == 'o')
+          coap_add_option(p, COAP_OPTION_CONTENT_FORMAT, 0, NULL);   /* text/plain */
         int n = snprintf((char *)buf, sizeof(buf), "Q%d:" MARK, k);
         coap_add_data(p, (size_t)n, buf);
         g_req[k].used = 1;
         g_req[k].mid = coap_pdu_get_mid(p);
-        g_req[k].con = op[1] == 'c';
+        g_req[k].con = op[1] != 'n';
         memcpy(g_req[k].tok, tok, tl);
         g_req[k].tl = tl;
         coap_mid_t m = coap_send(g_cs, p);
-        tg_emit("a.q:%d:%c%d:%d", k, op[1] == 'c' ? 'C' : 'N', (int)g_req[k].mid, (int)m);
+        tg_emit("a.q:%d:%c%d:%d", k, op[1] != 'n' ? 'C' : 'N', (int)g_req[k].mid, (int)m);
       } else
         tg_emit("a.q:%d:skip", k);
     } else if (op[0] == 'm' && op[1] == 'h') {
